@@ -93,33 +93,90 @@ def o3_structures(tier):
             for other in (None, 8):
                 sts.append({"gates": [gi] if other is None else [other, gi, other], "noisy": [gi], "spec": spec})
     sts.append({"gates": [0, 2, 3, 8, 2], "noisy": [2, 8], "spec": ["pauli", "depol"]})
+    # several noisy gate names in one circuit, each with its OWN rates - same number of qubits (H / X / RZ; CNOT / CRZ; doubly-controlled pair), repeated occurrences,
+    # interleaved, and a name that appears with different numbers of controls
+    for spec in specs:
+        sts.append({"gates": [0, 8, 1, 8, 0], "noisy": [0, 8, 1], "spec": spec})
+        sts.append({"gates": [2, 4, 2, 5, 6], "noisy": [2, 4, 5, 6], "spec": spec})
+        sts.append({"gates": [3, 9, 7, 3], "noisy": [3, 9, 7], "spec": spec})
+        sts.append({"gates": [8, 2, 3, 0, 4], "noisy": [2, 0, 4, 8], "spec": spec})
     return sts
 
 
-@contract("C19", "O3.translate_c_to_cirq.noise_insertion", targets=[(TC, "translate_c_to_cirq")], level="S", structures=o3_structures,
-          native_samples=lambda st, rnd, tier: [{"px": 0.1, "py": 0.05, "pz": 0.2, "p": 0.3, "t": 0.7}, {"px": 0.0, "py": 0.0, "pz": 0.0, "p": 0.0, "t": -2.0}])
+def _o3_samples(st, rnd, tier):
+    names = sorted({GATES[i][0] for i in st["noisy"]})
+    out = []
+    for k in range(2):
+        v = {"t": [0.7, -2.0][k]}
+        for j, nme in enumerate(names):
+            if k == 0:
+                v.update({f"px_{nme}": 0.1 + 0.03 * j, f"py_{nme}": 0.05 + 0.02 * j, f"pz_{nme}": 0.2 - 0.04 * j, f"p_{nme}": 0.3 + 0.1 * j})
+            else:
+                v.update({f"px_{nme}": 0.0, f"py_{nme}": 0.0, f"pz_{nme}": 0.0, f"p_{nme}": 0.0})
+        out.append(v)
+    return out
+
+
+@contract("C19", "O3.translate_c_to_cirq.noise_insertion", targets=[(TC, "translate_c_to_cirq")], level="S", structures=o3_structures, native_samples=_o3_samples)
 def o3(h, st):
     """after the operation(s) of EVERY gate whose name is in the noise model, in gate order: pauli -> asymmetric_depolarize(px,py,pz) on each target then
-    each control; depol -> one depolarize(p (4^k-1)/4^k, k) on targets++controls (k = number of qubits of the gate); both when both are specified, in the
-    order given; no channel after any other gate; for every value of the rates"""
+    each control; depol -> one depolarize(p (4^k-1)/4^k, k) on targets++controls (k = number of qubits of the gate) - with the rates specified FOR THAT GATE NAME
+    (every noisy name carries its own symbolic rates); both when both are specified, in the order given; no channel after any other gate; for every value of the rates"""
     if h.symbolic:
         h.I.module_override["cirq"] = fakes.FakeCirq
     from tangelo.linq.noisy_simulation import NoiseModel
-    px, py, pz, p = h.real("px"), h.real("py"), h.real("pz"), h.real("p")
+    rates = {nme: (h.real(f"px_{nme}"), h.real(f"py_{nme}"), h.real(f"pz_{nme}"), h.real(f"p_{nme}")) for nme in sorted({GATES[i][0] for i in st["noisy"]})}
+    for r4 in rates.values():
+        for r in r4[:3]:
+            h.assume(r >= 0)
+            h.assume(r <= 0.3)       # requires: the three Pauli probabilities of a channel sum to at most one
+        h.assume(r4[3] >= 0)
+        h.assume(r4[3] <= 1)
     t = h.real("t", angle_denom=2)
     gates = [mk_gate(GATES[i][0], GATES[i][1], GATES[i][2], t if GATES[i][0] in PARAM else "") for i in st["gates"]]
     c = mk_circuit(gates, 3)
     nm = NoiseModel()
     noisy_names = {GATES[i][0] for i in st["noisy"]}
     for name in sorted(noisy_names):
+        px, py, pz, p = rates[name]
         for kind in st["spec"]:
             nm._quantum_errors.setdefault(name, []).append(("pauli", [px, py, pz]) if kind == "pauli" else ("depol", p))
     cc = h.call(TC, "translate_c_to_cirq", c, nm)
     if not h.symbolic:
         import cirq
         ops = [op for op in cc.all_operations()][3:]
-        h.check("native: channel count", sum(1 for op in ops if not cirq.has_unitary(op) and not cirq.is_measurement(op)) ==
+        chans = [op for op in ops if not cirq.has_unitary(op) and not cirq.is_measurement(op)]
+        h.check("native: channel count", len(chans) ==
                 sum((len(g.target) + len(g.control or []) if "pauli" in st["spec"] else 0) + (1 if "depol" in st["spec"] else 0) for g in gates if g.name in noisy_names))
+        # the real cirq channel objects carry the rates of the gate they follow (cirq reorders operations on disjoint qubits: compared as multisets per qubit tuple)
+        exp = []
+        for g in gates:
+            if g.name in noisy_names:
+                px, py, pz, p = rates[g.name]
+                qs = list(g.target) + list(g.control or [])
+                k = len(qs)
+                for kind in st["spec"]:
+                    exp += [("pauli", (q,), (px, py, pz)) for q in qs] if kind == "pauli" else [("depol", tuple(qs), (p * (4 ** k - 1) / 4 ** k,))]
+        got = []
+        for op in chans:
+            gch = op.gate
+            qs = tuple(q.x for q in op.qubits)
+            if isinstance(gch, cirq.AsymmetricDepolarizingChannel):
+                got.append(("pauli", qs, (gch.p_x, gch.p_y, gch.p_z)))
+            elif isinstance(gch, cirq.DepolarizingChannel):
+                got.append(("depol", qs, (gch.p,)))
+            else:
+                got.append(("other", qs, ()))
+        key = lambda r: (r[0], r[1], tuple(round(x, 9) for x in r[2]))
+        got, exp = sorted(got, key=key), sorted(exp, key=key)
+        same_shape = [(a[0], a[1]) for a in got] == [(b[0], b[1]) for b in exp]
+        h.check("exactly the specified channels on exactly the gate's qubits", same_shape, detail=f"{got} vs {exp}")
+        if same_shape:
+            okp = all(all(abs(x - y) < 1e-12 for x, y in zip(a[2], b[2])) for a, b in zip(got, exp) if a[0] == "pauli")
+            okd = all(abs(a[2][0] - b[2][0]) < 1e-12 for a, b in zip(got, exp) if a[0] == "depol")
+            for nm_ in ("px", "py", "pz"):
+                h.check(nm_, okp, detail=f"{got} vs {exp}")
+            h.check("depolarising parameter p (4^k-1)/4^k", okd, detail=f"{got} vs {exp}")
         h.done()
         return
     ops = cc.ops[3:]
@@ -130,6 +187,7 @@ def o3(h, st):
         pos += 1
         if g.name in noisy_names:
             qs = list(g.target) + list(g.control or [])
+            px, py, pz, p = rates[g.name]
             for kind in st["spec"]:
                 if kind == "pauli":
                     for q in qs:
@@ -294,6 +352,8 @@ from tverif.interp import GhostIterable
 
 
 class NoisyGenericGate(GhostIterable):
+    managed = ("target_circuit", "measure_count")      # loop-carried state described by this invariant (anything else carried across iterations -> undecided)
+
     def __init__(self, h, gate, n, spec, rates, noisy):
         self.h, self.gate, self.n, self.spec, self.rates, self.noisy = h, gate, n, spec, rates, noisy
         self.before = snapshot(gate.__dict__)
